@@ -1,7 +1,8 @@
 (* C05 - String values keep their exact characters and wildcards in every rendering.
    Only statements, each closed by `exact`, with Print Assumptions. *)
 From Coq Require Import NArith List Bool.
-From PS Require Import Base.Chars Base.Outcome Model.SString Spec.Items Proofs.SStringP Proofs.ConvertP.
+From Coq Require Import ZArith.
+From PS Require Import Base.Chars Base.Outcome Model.SString Model.Slice Spec.Items Proofs.SStringP Proofs.ConvertP Proofs.SliceP.
 Import ListNotations.
 
 (* the parser of SigmaString.__init__ reads a source string exactly as the specification's
@@ -43,6 +44,31 @@ Theorem C05_regex_decode :
   forall custom v q, to_regex custom v = Ok q -> rdecode q = Some (items v).
 Proof. exact regex_decode. Qed.
 Print Assumptions C05_regex_decode.
+
+(* the slices the backend takes to strip wildcards for startswith / endswith / contains keep
+   exactly the remaining items: v[:k], v[:-k] (startswith uses v[:-1]), v[k:] (endswith uses v[1:])
+   and v[1:-1] of a value starting with a wildcard (contains) *)
+Theorem C05_slice_prefix : forall v k r, (0 <= k <= Z.of_nat (slen v))%Z ->
+  getitem v None (Some k) = Ok r -> items r = firstn (Z.to_nat k) (items v).
+Proof. exact slice_prefix. Qed.
+Print Assumptions C05_slice_prefix.
+Theorem C05_slice_prefix_neg : forall v k r, (0 < k <= Z.of_nat (slen v))%Z ->
+  getitem v None (Some (- k)%Z) = Ok r -> items r = firstn (length (items v) - Z.to_nat k) (items v).
+Proof. exact slice_prefix_neg. Qed.
+Print Assumptions C05_slice_prefix_neg.
+Theorem C05_slice_suffix : forall v k r, (0 <= k)%Z ->
+  getitem v (Some k) None = Ok r -> items r = skipn (Z.to_nat k) (items v).
+Proof. exact slice_suffix. Qed.
+Print Assumptions C05_slice_suffix.
+Theorem C05_slice_strip : forall p v r, (match p with PStr _ => False | _ => True end) ->
+  getitem (p :: v) (Some 1%Z) (Some (-1)%Z) = Ok r -> items r = removelast (tl (items (p :: v))).
+Proof. exact slice_strip. Qed.
+Print Assumptions C05_slice_strip.
+(* a slice with both bounds inside one plain part re-parses that substring: not faithful *)
+Theorem C05_slice_inner_refuted : exists v r,
+  getitem v (Some 1%Z) (Some 2%Z) = Ok r /\ items r <> firstn 1 (skipn 1 (items v)).
+Proof. exists [PStr [97%N; c_star; 98%N]]. eexists. split; [reflexivity|]. vm_compute. discriminate. Qed.
+Print Assumptions C05_slice_inner_refuted.
 
 (* non-vacuity: the premises are met by a non-trivial configuration and value *)
 Example C05_premises_inhabited :
